@@ -46,6 +46,9 @@ type ByteFault struct {
 	Off2 int    `json:"off2,omitempty"`
 	// where the fault was aimed (evidence only)
 	Aim string `json:"aim,omitempty"`
+	// graft: table Tag is replaced by Data (an adversarial table written by the simulator)
+	Tag  string `json:"tag,omitempty"`
+	Data []byte `json:"data,omitempty"`
 }
 
 type FDCase struct {
@@ -73,6 +76,10 @@ func applyByteFaults(img []byte, fs []ByteFault) []byte {
 			continue
 		}
 		switch f.Kind {
+		case "graft":
+			if g, ok := faultdisk.Graft(out, f.Tag, f.Data); ok {
+				out = g
+			}
 		case "trunc":
 			if f.Off < len(out) {
 				out = out[:f.Off]
@@ -169,6 +176,16 @@ func systematicCases(img []byte) []ByteFault {
 			for _, v := range []uint32{0, 1, 0xFFFF, 0x7FFF} {
 				field("set16", t.Offset+h, v, t.Tag+":header")
 			}
+			// off by one in either direction: the classic way for a count shared between tables
+			// (axes, glyphs, metrics, classes) to disagree with its counterpart
+			if t.Offset+h+2 <= len(img) {
+				cur := uint32(binary.BigEndian.Uint16(img[t.Offset+h:]))
+				for _, v := range []uint32{cur + 1, cur - 1} {
+					if v &= 0xFFFF; v != 0 && v != 1 && v != 0xFFFF && v != 0x7FFF {
+						field("set16", t.Offset+h, v, t.Tag+":header")
+					}
+				}
+			}
 		}
 		for h := 0; h < 32 && h+4 <= t.Length; h += 4 {
 			for _, v := range []uint32{0, 0xFFFFFFFF, uint32(t.Length), uint32(t.Length + 1)} {
@@ -259,6 +276,7 @@ func (e *fdEngine) Generate(seed uint64, tier string, run int) (json.RawMessage,
 		return json.Marshal(c)
 	case run < nSys+len(files)/4 && tier == "quick", run < nSys+len(files) && tier != "quick":
 		c.Family = "pristine"
+		c.Via = "parsettc" // the reference below is a ParseTTC of the same bytes: same entry point
 		j := run - nSys
 		if tier == "quick" {
 			j = (j*4 + int(seed%4)) % len(files)
@@ -293,6 +311,30 @@ func (e *fdEngine) Generate(seed uint64, tier string, run int) (json.RawMessage,
 	img := corpus.Bytes(c.Font)
 	kind, tables := faultdisk.ParseDirectory(img)
 	_ = kind
+	if rk.Chance(0.02) {
+		// adversarial stored image: one table replaced by a small well-formed table that aims at
+		// a work limit (shaper buffer length / operation budget, lookup nesting, cmap enumeration)
+		if bf, ok := genGraft(rf, c.Font); ok {
+			c.Bytes = []ByteFault{bf}
+			if bf.Tag == "cmap" && rf.Chance(0.5) {
+				c.Via = "addfont"
+			}
+			return json.Marshal(c)
+		}
+	}
+	if rk.Chance(0.03) {
+		// structure-aware plan: one of the dimensions that several tables must agree on (axes,
+		// glyphs, long metrics, shared tuples, strikes) is nudged in one table only
+		if rk.Chance(0.6) {
+			c.Font = kernel.Pick(rk, append(append([]string{}, corpus.Variable...), corpus.Bitmap...))
+			img = corpus.Bytes(c.Font)
+			_, tables = faultdisk.ParseDirectory(img)
+		}
+		if bf, ok := genDesync(rf, img, tables); ok {
+			c.Bytes = []ByteFault{bf}
+			return json.Marshal(c)
+		}
+	}
 	if rk.Chance(0.04) {
 		// structure-aware adversarial plan: reference cycles between composite glyphs (every
 		// chosen component of a composite is redirected to the glyph itself or to another
@@ -351,6 +393,85 @@ func (e *fdEngine) Generate(seed uint64, tier string, run int) (json.RawMessage,
 		}
 	}
 	return json.Marshal(c)
+}
+
+// genGraft draws an adversarial table for a plain sfnt font that has the table to replace.
+func genGraft(rf *kernel.Rand, name string) (ByteFault, bool) {
+	img := corpus.Bytes(name)
+	kind, tabs := faultdisk.ParseDirectory(img)
+	if kind != faultdisk.KindSfnt {
+		return ByteFault{}, false
+	}
+	has := map[string]bool{}
+	for _, t := range tabs {
+		has[t.Tag] = true
+	}
+	fonts := corpus.Fonts(name)
+	if len(fonts) == 0 {
+		return ByteFault{}, false
+	}
+	gid, ok := font.NewFace(fonts[0]).NominalGlyph('a')
+	if !ok {
+		return ByteFault{}, false
+	}
+	switch m := rf.Intn(3); {
+	case m == 0 && has["GSUB"]:
+		k, n := rf.Range(5, 16), rf.Range(2, 8)
+		return ByteFault{Kind: "graft", Tag: "GSUB", Data: faultdisk.SynthGSUBExpansion(int(gid), k, n), Aim: fmt.Sprintf("GSUB:expansion %d^%d", n, k)}, true
+	case m == 1 && has["GSUB"]:
+		fan := kernel.Pick(rf, []int{2, 3, 4, 8, 16, 64, 255})
+		return ByteFault{Kind: "graft", Tag: "GSUB", Data: faultdisk.SynthGSUBRecursion(int(gid), fan), Aim: fmt.Sprintf("GSUB:recursion fan-out %d", fan)}, true
+	case has["cmap"]:
+		var groups [][3]uint32
+		switch rf.Intn(4) {
+		case 0:
+			groups = [][3]uint32{{0x20, 0x10FFFF, 1}}
+		case 1:
+			groups = [][3]uint32{{0, 0xFFFFFFFF, 0}}
+		case 2:
+			for i := 0; i < rf.Range(50, 400); i++ {
+				groups = append(groups, [3]uint32{0x20, 0x10FFFF, uint32(i)})
+			}
+		default:
+			groups = [][3]uint32{{0x61, 0x61, uint32(gid)}, {0x10FFFF, 0x20, 1}, {0x7FFFFFF0, 0x80000010, 1}}
+		}
+		return ByteFault{Kind: "graft", Tag: "cmap", Data: faultdisk.SynthCmap12(groups), Aim: fmt.Sprintf("cmap:format 12, %d groups", len(groups))}, true
+	}
+	return ByteFault{}, false
+}
+
+// dimensionFields: 16-bit fields (table tag, offset in the table) holding a dimension that other
+// tables, or other parts of the same table, are sized by.
+var dimensionFields = []struct {
+	tag string
+	off int
+}{
+	{"fvar", 8}, {"fvar", 10}, {"fvar", 12}, {"fvar", 14}, {"gvar", 4}, {"gvar", 6}, {"gvar", 12}, {"avar", 6},
+	{"maxp", 4}, {"hhea", 34}, {"vhea", 34}, {"STAT", 4}, {"STAT", 6}, {"STAT", 12}, {"post", 32}, {"head", 50}, {"head", 18},
+	{"cvar", 4}, {"kern", 2}, {"CBLC", 6}, {"EBLC", 6}, {"sbix", 6}, {"CPAL", 2}, {"CPAL", 4}, {"CPAL", 6}, {"COLR", 2}, {"COLR", 12},
+	{"hdmx", 2}, {"LTSH", 2}, {"VORG", 6}, {"SVG ", 10}, {"cmap", 2}, {"name", 2}, {"trak", 4}, {"feat", 4}, {"ankr", 2},
+}
+
+func genDesync(rf *kernel.Rand, img []byte, tables []faultdisk.TableRef) (ByteFault, bool) {
+	var cands []ByteFault
+	for _, t := range tables {
+		for _, d := range dimensionFields {
+			if t.Tag == d.tag && d.off+2 <= t.Length && t.Offset+d.off+2 <= len(img) {
+				cands = append(cands, ByteFault{Kind: "set16", Off: t.Offset + d.off, Aim: fmt.Sprintf("%s+%d:dimension", t.Tag, d.off)})
+			}
+		}
+	}
+	if len(cands) == 0 {
+		return ByteFault{}, false
+	}
+	bf := kernel.Pick(rf, cands)
+	cur := int(binary.BigEndian.Uint16(img[bf.Off:]))
+	v := cur + kernel.Pick(rf, []int{1, 1, -1, -1, 2, -2, cur, -cur / 2})
+	if v < 0 {
+		v = 0
+	}
+	bf.Val = uint32(v) & 0xFFFF
+	return bf, true
 }
 
 var faultKinds = []string{"trunc", "flip", "set16", "set32", "zero", "swap"}
@@ -690,7 +811,7 @@ func (e *fdEngine) execute(raw json.RawMessage, profiled bool) (*kernel.Outcome,
 	}
 	out.States = append(out.States, fmt.Sprintf("%s|%s|%s|%s", kind, aim, fk, outcome))
 	out.Count("outcome."+outcome, 1)
-	if v == nil && c.Family == "pristine" {
+	if v == nil && c.Family == "pristine" && c.Via != "addfont" {
 		// the stronger oracle of the fault-free family: loading through the simulated disk
 		// equals loading through a plain bytes.Reader
 		var want string
@@ -859,6 +980,25 @@ func batteryPhased(f *font.Face, seed uint64, out *kernel.Outcome, onShaping fun
 		}
 	}
 	out.Count("op.variations_ppem", 1)
+	// every axis of the font away from its default, whatever the axes are called: normalized
+	// coordinates are set directly (as many as the face reports after SetVariations)
+	if n := len(f.Coords()); n > 0 {
+		coords := make([]font.VarCoord, n)
+		for i := range coords {
+			coords[i] = font.VarCoord([]int{8192, -8192, 16384, -16384, 4096, 12000}[r.Intn(6)])
+		}
+		f.SetCoords(coords)
+		for _, g := range gids[:min(12, len(gids))] {
+			ext, ok := f.GlyphExtents(g)
+			fmt.Fprintf(&sb, " c%d{%v,%v,%v,%v}", g, ext, ok, f.HorizontalAdvance(g), f.VerticalAdvance(g))
+			if o, ok := f.GlyphData(g).(font.GlyphOutline); ok {
+				fmt.Fprintf(&sb, "o%d", len(o.Segments))
+			}
+		}
+		he, ok1 := f.FontHExtents()
+		fmt.Fprintf(&sb, " cext=%v,%v lm=%v", he, ok1, f.LineMetric(font.UnderlinePosition))
+		out.Count("op.all_axes_coords", 1)
+	}
 
 	// shaping with short texts drawn from the face's own cmap
 	if onShaping != nil {
